@@ -87,7 +87,7 @@ MODELS = {
     # name: (module, quick cfg, thorough cfg, parsers, quick vector limit)
     "framing": ("MC_Framing.tla", "MC_Framing_quick.cfg", "MC_Framing_thorough.cfg", ["A"], 9000),
     "cache": ("MC_Cache.tla", "MC_Cache_quick.cfg", "MC_Cache_thorough.cfg", ["A", "B"], 6000),
-    "decode": ("MC_Decode.tla", "MC_Decode_quick.cfg", "MC_Decode_thorough.cfg", ["A"], 8000),
+    "decode": ("MC_Decode.tla", "MC_Decode_quick.cfg", "MC_Decode_thorough.cfg", ["A"], 4000),
 }
 
 
@@ -136,28 +136,28 @@ PROP_DRIVERS = {
     "C16": ["corpus", "conformant", "mutate", "rounds", "hostile"],
     "C02": ["corpus", "conformant", "mutate", "truncate", "hostile"],
     "C03": ["corpus", "conformant", "protocols", "truncate"],
-    "C04": ["corpus", "conformant"],
+    "C04": ["corpus", "conformant", "protocols"],
     "C05": ["corpus", "conformant"],
     "C06": ["corpus", "conformant", "mutate", "rounds"],
     "C07": ["corpus", "conformant", "mutate"],
-    "C08": ["corpus", "conformant", "mutate", "struct"],
+    "C08": ["corpus", "conformant", "mutate", "struct", "protocols"],
     "C09": ["corpus", "conformant", "mutate"],
     "C10": ["corpus", "conformant", "mutate"],
     "C11": ["corpus", "conformant", "rounds"],
     "C12": ["corpus", "mutate", "conformant", "rounds"],
-    "C13": ["corpus", "conformant", "mutate"],
+    "C13": ["corpus", "conformant", "mutate", "protocols"],
     "C14": ["corpus", "truncate", "mutate", "rounds"],
 }
 
 
 # ----------------------------------------------------------------------------- driver runs (cached)
-def driver_run(name, tier, seed, puf=True, keep_trace=False):
+def driver_run(name, tier, seed, puf=True, keep_trace=False, release=False):
     """ops -> harness -> trace -> TLC findings; cached by the hash of everything it depends on"""
-    binary = vf.build_harness(puf=puf)
+    binary = vf.build_harness(puf=puf, release=release)
     if binary is None:
         raise vf.ToolError("harness build failed")
     th = vf.tree_hash()
-    key = "%s-%s-%d-%s" % (name, tier, seed, "puf" if puf else "nopuf")
+    key = "%s-%s-%d-%s%s" % (name, tier, seed, "puf" if puf else "nopuf", "-release" if release else "")
     cdir = os.path.join(vf.OUT, "cache", th, key)
     done = os.path.join(cdir, "result.json")
     if os.path.exists(done):
@@ -179,7 +179,7 @@ def driver_run(name, tier, seed, puf=True, keep_trace=False):
         env_extra["LIGHT"] = "1"
     res = vf.validate(trf, cdir, env_extra=env_extra or None)
     res["trace"] = trf
-    res["driver"] = name
+    res["driver"] = name + ("(release)" if release else "")
     res["calls"] = sum(1 for o in ops if o.get("op") in ("call", "flat", "struct"))
     res["sessions"] = sum(1 for o in ops if o.get("op") == "reset")
     res["wall_s"] = round(time.time() - t, 1)
@@ -347,6 +347,9 @@ def check(prop, tier, seed, t0):
     models = [model_run(m, tier, seed) for m in PROP_MODELS.get(prop, [])]
     runs = [driver_run("vec:" + m, tier, seed) for m in PROP_MODELS.get(prop, [])]
     runs += [driver_run(d, tier, seed) for d in PROP_DRIVERS[prop]]
+    if prop == "C01" and tier == "thorough":
+        # stack depth and frame sizes differ between profiles: exercise the optimised build too
+        runs += [driver_run(d, tier, seed, release=True) for d in ("scale", "hostile", "mutate")]
     extra = {"models": {m["module"] + ":" + m["cfg"]: {"states": m["states"], "transitions": m["transitions"], "vectors": m["nvec"], "wall_s": m["wall_s"]} for m in models}}
     return emit(prop, tier, seed, t0, runs, extra_cov=extra, models=models)
 
